@@ -8,7 +8,8 @@
    `returns r` = r is `Ret v` (a value: Some object or None), i.e. the call does not raise.
    Where the current code violates the property the full statement is kept as a Definition, refuted by a concrete
    witness (the same input is replayed on the implementation by harness/c18.py), and the part that holds is proved
-   as `..._partial` with a named exclusion predicate. *)
+   as `..._partial` with a named exclusion predicate.  Open today: bip32_pub returns private nodes for
+   xpub-prefixed private blobs (and script contracts with unknown opcodes have no parseable text, implementation level). *)
 From Coq Require Import List NArith ZArith String Bool.
 From Coq Require Import Strings.Byte.
 From PV Require Import Base.Bytes Base.Outcome Gen.GenParsePrefixes Model.ParseText Proofs.ParseTextP.
@@ -66,19 +67,29 @@ Theorem C18_total_sec : forall modsqrt net s, returns (sec modsqrt net s).
 Proof. exact sec_total. Qed.
 Print Assumptions C18_total_sec.
 
-(* public_pair builds Key(1) first to reach the generator: the generator must be a curve point *)
+(* public_pair builds Key(1) first to reach the generator: the generator must be a curve point in range *)
 Theorem C18_total_public_pair : forall int10 int16 mulG modsqrt net s,
-  on_curve (mulG 1) = true -> returns (public_pair int10 int16 mulG modsqrt net s).
+  on_curve (mulG 1) = true -> in_range (mulG 1) = true ->
+  returns (public_pair int10 int16 mulG modsqrt net s).
 Proof. exact public_pair_total. Qed.
 Print Assumptions C18_total_public_pair.
 
 Theorem C18_total_public_key : forall int10 int16 mulG modsqrt net s,
-  on_curve (mulG 1) = true -> returns (public_key int10 int16 mulG modsqrt net s).
+  on_curve (mulG 1) = true -> in_range (mulG 1) = true ->
+  returns (public_key int10 int16 mulG modsqrt net s).
 Proof. exact public_key_total. Qed.
 Print Assumptions C18_total_public_key.
 
-Example C18_generator_on_curve : on_curve (curve_gx, curve_gy) = true.
-Proof. vm_compute. reflexivity. Qed.
+(* the text that used to be accepted, then to raise: x = p + 1 is refused with None *)
+Theorem C18_public_pair_unreduced_refused :
+  public_pair dec10 no_int mulG_w modsqrt_real btc_cfg w_pair_text = Ret None /\
+  public_key dec10 no_int mulG_w modsqrt_real btc_cfg w_pair_text = Ret None.
+Proof. exact w_pair_refused. Qed.
+Print Assumptions C18_public_pair_unreduced_refused.
+
+Example C18_generator_on_curve :
+  on_curve (curve_gx, curve_gy) = true /\ in_range (curve_gx, curve_gy) = true.
+Proof. vm_compute. auto. Qed.
 
 (* bip32_prv / bip49_prv / bip84_prv, ..._pub, and bip32 / bip49 / bip84 (kind ranges over the three) *)
 Theorem C18_total_hd_prv : forall b58 mulG modsqrt net kind s, returns (hd_prv b58 mulG modsqrt net kind s).
@@ -106,79 +117,79 @@ Theorem C18_total_unsupported : forall net s, returns (unsupported net s).
 Proof. exact unsupported_total. Qed.
 Print Assumptions C18_total_unsupported.
 
-(* ---- the seed parsers and the catch-all parsers that contain them: NOT total today ---- *)
-Definition C18_total_hd_seed_statement : Prop := forall net s, returns (hd_seed net s).
-(* finding hd-seed-missing-api: "H:00" reaches self._network.keys.hd_seed, which does not exist (AttributeError) *)
-Theorem C18_refuted_hd_seed : ~ C18_total_hd_seed_statement.
-Proof. exact hd_seed_not_total. Qed.
-Print Assumptions C18_refuted_hd_seed.
+(* ---- the seed parsers and the catch-all parsers that contain them ----
+   Total for every text.  The only exclusion left is the case in which the DERIVED key number (left half of the
+   HMAC, or the stretched electrum key) is 0 or >= n: Key.__init__ then raises InvalidSecretExponentError outside any
+   try.  Its probability is 2^-127 per text and no input is known; it is stated as a hypothesis on (oracle, text)
+   (seed_exponent_bad / electrum_seed_bad), documented, not a listed finding.  Hypotheses on the oracles: HMAC-SHA512
+   yields 64 bytes; k*G is a curve point with coordinates in [0, p) for valid k. *)
+Theorem C18_total_bip32_seed : forall hmac512 mulG,
+  (forall m, length (hmac512 m) = 64%nat) ->
+  (forall k, valid_exponent k = true -> on_curve (mulG k) = true /\ in_range (mulG k) = true) ->
+  forall net s, seed_exponent_bad hmac512 s = false -> returns (bip32_seed hmac512 mulG net s).
+Proof. exact bip32_seed_total. Qed.
+Print Assumptions C18_total_bip32_seed.
 
-Theorem C18_total_hd_seed_partial : forall net s,
-  seed_surrogate s = false -> seed_well_formed s = false -> returns (hd_seed net s).
-Proof. exact hd_seed_partial. Qed.
-Print Assumptions C18_total_hd_seed_partial.
+Theorem C18_total_hd_seed : forall hmac512 mulG,
+  (forall m, length (hmac512 m) = 64%nat) ->
+  (forall k, valid_exponent k = true -> on_curve (mulG k) = true /\ in_range (mulG k) = true) ->
+  forall net s, seed_exponent_bad hmac512 s = false -> returns (hd_seed hmac512 mulG net s).
+Proof. exact hd_seed_total. Qed.
+Print Assumptions C18_total_hd_seed.
 
-Definition C18_total_bip32_seed_statement : Prop := forall hmac512 mulG net s, returns (bip32_seed hmac512 mulG net s).
-(* finding seed-passphrase-surrogate: "P:\ud800" -> str.encode("utf8") raises UnicodeEncodeError outside any try *)
-Theorem C18_refuted_bip32_seed : ~ C18_total_bip32_seed_statement.
-Proof. exact bip32_seed_not_total. Qed.
-Print Assumptions C18_refuted_bip32_seed.
-
-(* total outside: a lone surrogate in a P: passphrase (finding above), and an HMAC whose left half is not a valid
-   exponent (probability 2^-127, no input known: documented, not a finding).  Hypotheses on the oracles: HMAC-SHA512
-   yields 64 bytes; k*G is a curve point for valid k. *)
-Theorem C18_total_bip32_seed_partial : forall hmac512 mulG,
-  (forall m, length (hmac512 m) = 64%nat) -> (forall k, valid_exponent k = true -> on_curve (mulG k) = true) ->
-  forall net s, seed_surrogate s = false -> seed_exponent_bad hmac512 s = false ->
-  returns (bip32_seed hmac512 mulG net s).
-Proof. exact bip32_seed_partial. Qed.
-Print Assumptions C18_total_bip32_seed_partial.
-
-Theorem C18_total_electrum_seed_partial : forall stretch mulG,
-  (forall k, valid_exponent k = true -> on_curve (mulG k) = true) ->
+Theorem C18_total_electrum_seed : forall stretch mulG,
+  (forall k, valid_exponent k = true -> on_curve (mulG k) = true /\ in_range (mulG k) = true) ->
   forall net s, electrum_seed_bad stretch s = false -> returns (electrum_seed stretch mulG net s).
-Proof. exact electrum_seed_partial. Qed.
-Print Assumptions C18_total_electrum_seed_partial.
+Proof. exact electrum_seed_total. Qed.
+Print Assumptions C18_total_electrum_seed.
 
-Theorem C18_total_hierarchical_key_partial : forall b58 hmac512 stretch mulG modsqrt,
-  (forall m, length (hmac512 m) = 64%nat) -> (forall k, valid_exponent k = true -> on_curve (mulG k) = true) ->
-  forall net s, seed_surrogate s = false -> seed_exponent_bad hmac512 s = false -> electrum_seed_bad stretch s = false ->
+Theorem C18_total_hierarchical_key : forall b58 hmac512 stretch mulG modsqrt,
+  (forall m, length (hmac512 m) = 64%nat) ->
+  (forall k, valid_exponent k = true -> on_curve (mulG k) = true /\ in_range (mulG k) = true) ->
+  forall net s, seed_exponent_bad hmac512 s = false -> electrum_seed_bad stretch s = false ->
   returns (hierarchical_key b58 hmac512 stretch mulG modsqrt net s).
-Proof. exact hierarchical_key_partial. Qed.
-Print Assumptions C18_total_hierarchical_key_partial.
+Proof. exact hierarchical_key_total. Qed.
+Print Assumptions C18_total_hierarchical_key.
 
-Theorem C18_total_secret_partial : forall b58 int10 int16 hmac512 stretch mulG modsqrt,
-  (forall m, length (hmac512 m) = 64%nat) -> (forall k, valid_exponent k = true -> on_curve (mulG k) = true) ->
-  forall net s, seed_surrogate s = false -> seed_exponent_bad hmac512 s = false -> electrum_seed_bad stretch s = false ->
+Theorem C18_total_secret : forall b58 int10 int16 hmac512 stretch mulG modsqrt,
+  (forall m, length (hmac512 m) = 64%nat) ->
+  (forall k, valid_exponent k = true -> on_curve (mulG k) = true /\ in_range (mulG k) = true) ->
+  forall net s, seed_exponent_bad hmac512 s = false -> electrum_seed_bad stretch s = false ->
   returns (secret b58 int10 int16 hmac512 stretch mulG modsqrt net s).
-Proof. exact secret_partial. Qed.
-Print Assumptions C18_total_secret_partial.
-
-Definition C18_total_parse_statement : Prop :=
-  forall b58 bech32 int10 int16 compile hmac512 stretch mulG modsqrt net s,
-  returns (parse_any b58 bech32 int10 int16 compile hmac512 stretch mulG modsqrt net s).
-(* network.parse("P:\ud800") inherits the UnicodeEncodeError *)
-Theorem C18_refuted_parse : ~ C18_total_parse_statement.
-Proof. exact parse_any_not_total. Qed.
-Print Assumptions C18_refuted_parse.
+Proof. exact secret_total. Qed.
+Print Assumptions C18_total_secret.
 
 (* network.parse(s) = ParseAPI.__call__ *)
-Theorem C18_total_parse_partial : forall b58 bech32 int10 int16 compile hmac512 stretch mulG modsqrt,
-  (forall m, length (hmac512 m) = 64%nat) -> (forall k, valid_exponent k = true -> on_curve (mulG k) = true) ->
-  forall net s, seed_surrogate s = false -> seed_exponent_bad hmac512 s = false -> electrum_seed_bad stretch s = false ->
+Theorem C18_total_parse : forall b58 bech32 int10 int16 compile hmac512 stretch mulG modsqrt,
+  (forall m, length (hmac512 m) = 64%nat) ->
+  (forall k, valid_exponent k = true -> on_curve (mulG k) = true /\ in_range (mulG k) = true) ->
+  forall net s, seed_exponent_bad hmac512 s = false -> electrum_seed_bad stretch s = false ->
   returns (parse_any b58 bech32 int10 int16 compile hmac512 stretch mulG modsqrt net s).
-Proof. exact parse_any_partial. Qed.
-Print Assumptions C18_total_parse_partial.
+Proof. exact parse_any_total. Qed.
+Print Assumptions C18_total_parse.
+
+(* texts that used to raise or to be taken for seeds are refused: ":", "HP:abc", "P:\ud800" *)
+Theorem C18_seed_regressions_refused :
+  seed_secret [58%N] = Ret None /\ seed_secret (text_of_string "HP:abc") = Ret None /\ seed_secret [80; 58; 55296]%N = Ret None.
+Proof. exact w_seed_prefix_refused. Qed.
+Print Assumptions C18_seed_regressions_refused.
+
+(* a seed text starts with exactly "H:" or "P:" *)
+Theorem C18_seed_prefix_exact : forall s m, seed_secret s = Ret (Some m) ->
+  exists rest, s = tH ++ 58%N :: rest \/ s = tP ++ 58%N :: rest.
+Proof. exact seed_prefix_exact. Qed.
+Print Assumptions C18_seed_prefix_exact.
 
 (* non-vacuity of the hypotheses on the oracles: a constant generator point and a 64-byte constant satisfy them *)
 Example C18_oracle_hypotheses_satisfiable :
-  (forall k, valid_exponent k = true -> on_curve ((fun _ : Z => (curve_gx, curve_gy)) k) = true) /\
+  (forall k, valid_exponent k = true ->
+     on_curve ((fun _ : Z => (curve_gx, curve_gy)) k) = true /\ in_range ((fun _ : Z => (curve_gx, curve_gy)) k) = true) /\
   (forall m : bytes, length ((fun _ : bytes => repeatb x00 64) m) = 64%nat).
-Proof. split; intros; vm_compute; reflexivity. Qed.
+Proof. split; intros; vm_compute; auto. Qed.
 
 (* non-vacuity of the exclusions: ordinary texts satisfy them *)
 Example C18_exclusions_satisfiable :
-  seed_surrogate (text_of_string "P:correct horse") = false /\ seed_well_formed (text_of_string "1abc") = false /\
+  seed_exponent_bad (fun _ => repeatb x01 64) (text_of_string "P:correct horse") = false /\
   electrum_seed_bad (fun _ => 5) (text_of_string "E:00112233445566778899aabbccddeeff") = false.
 Proof. vm_compute. auto. Qed.
 
@@ -217,7 +228,7 @@ Print Assumptions C18_out_of_range_hd_refused.
 
 (* a SEC text (hex of b) whose x coordinate is >= p is refused *)
 Theorem C18_out_of_range_sec_refused : forall modsqrt net s b,
-  h2b s = Some b -> curve_p <= from_bytes (slice 1 33 b) -> sec modsqrt net s = Ret None.
+  h2b (strip_sec_prefix net s) = Some b -> curve_p <= from_bytes (slice 1 33 b) -> sec modsqrt net s = Ret None.
 Proof. exact sec_bad_x. Qed.
 Print Assumptions C18_out_of_range_sec_refused.
 
@@ -280,49 +291,56 @@ Theorem C18_reserialize_segwit : forall net ver len mk v o,
 Proof. exact segwit_canonical. Qed.
 Print Assumptions C18_reserialize_segwit.
 
-(* ---- public keys: Key.as_text() is `sec_prefix + hex`, and no parser strips the prefix ---- *)
-Definition C18_reserialize_public_key_statement : Prop :=
-  forall int10 int16 mulG modsqrt net s o t,
-  public_key int10 int16 mulG modsqrt net s = Ret (Some o) -> public_key_text net o = Ret t ->
-  public_key int10 int16 mulG modsqrt net t = Ret (Some o).
-(* finding sec-text-prefix-not-parsed: BTC.parse.public_key("02" + 31*"00" + "01").as_text() = "BTCSEC:02..01" -> None
-   (ParseAPI.sec compares the colon prefix with the WIF prefix, a bytes object, instead of the SEC prefix) *)
-Theorem C18_refuted_reserialize_public_key : ~ C18_reserialize_public_key_statement.
-Proof. exact public_key_text_not_reparsed. Qed.
-Print Assumptions C18_refuted_reserialize_public_key.
-
-(* what holds: the text minus the prefix parses back to the same key (keys returned by sec()) *)
-Theorem C18_reserialize_sec_partial : forall modsqrt net s o,
+(* ---- public keys: Key.as_text() = sec_prefix + hex(sec) parses back ---- *)
+Theorem C18_reserialize_sec : forall modsqrt net s o,
   sec modsqrt net s = Ret (Some o) ->
-  exists t, public_key_text net o = Ret (n_sec_prefix net ++ t) /\ sec modsqrt net t = Ret (Some o).
-Proof. exact sec_reserialize_without_prefix. Qed.
-Print Assumptions C18_reserialize_sec_partial.
+  exists t, public_key_text net o = Ret t /\ sec modsqrt net t = Ret (Some o).
+Proof. exact sec_reserialize. Qed.
+Print Assumptions C18_reserialize_sec.
 
-(* ---- public_pair / electrum_pub: coordinates outside [0, p) are accepted (Key.__init__ tests the curve
-        equation modulo p only) ---- *)
-Definition C18_public_pair_in_range_statement : Prop :=
-  forall int10 int16 mulG modsqrt net s pt c,
-  public_pair int10 int16 mulG modsqrt net s = Ret (Some (OKey (Pub pt) c)) ->
-  0 <= fst pt < curve_p /\ 0 <= snd pt < curve_p.
-(* finding public-pair-unreduced: BTC.parse.public_pair("<p+1>/even") returns a key with x = p+1 *)
-Theorem C18_refuted_public_pair_in_range : ~ C18_public_pair_in_range_statement.
-Proof. exact public_pair_not_in_range. Qed.
-Print Assumptions C18_refuted_public_pair_in_range.
+Example C18_reserialize_sec_instance :
+  public_key dec10 no_int mulG_w modsqrt_real btc_cfg w_sec_hex = Ret (Some w_sec_key) /\
+  public_key_text btc_cfg w_sec_key = Ret w_sec_text /\
+  public_key dec10 no_int mulG_w modsqrt_real btc_cfg w_sec_text = Ret (Some w_sec_key).
+Proof. exact (conj w_sec_parses (conj w_sec_as_text w_sec_reparsed)). Qed.
 
-(* what holds: keys returned by sec() DO have coordinates in [0, p) (pow(a, e, p) returns residues) *)
-Theorem C18_sec_in_range_partial : forall modsqrt net s pt c,
+(* whatever public_pair returns lies on the curve with coordinates in [0, p) *)
+Theorem C18_public_pair_in_range : forall int10 int16 mulG modsqrt net s o,
+  public_pair int10 int16 mulG modsqrt net s = Ret (Some o) ->
+  exists pt, o = OKey (Pub pt) true /\ on_curve pt = true /\ in_range pt = true.
+Proof. exact public_pair_in_range. Qed.
+Print Assumptions C18_public_pair_in_range.
+
+Theorem C18_sec_in_range : forall modsqrt net s pt c,
   (forall a, 0 <= modsqrt a < curve_p) ->
   sec modsqrt net s = Ret (Some (OKey (Pub pt) c)) -> 0 <= fst pt < curve_p /\ 0 <= snd pt < curve_p.
 Proof. exact sec_in_range. Qed.
-Print Assumptions C18_sec_in_range_partial.
+Print Assumptions C18_sec_in_range.
 
-(* ... for x >= 2^256 the returned key's as_text() raises OverflowError; electrum_pub accepts x = p+1 as well *)
-Theorem C18_unreduced_witnesses :
-  (public_pair dec10 no_int mulG_w modsqrt_real btc_cfg w_pair_text2 = Ret (Some w_pair_key2) /\
-   public_key_text btc_cfg w_pair_key2 = Raise E_OVERFLOW) /\
-  electrum_pub btc_cfg w_electrum_text = Ret (Some (OElectrum None (Pub (curve_p + 1, y_for_x1)))).
-Proof. exact unreduced_witnesses. Qed.
-Print Assumptions C18_unreduced_witnesses.
+(* keys returned by public_pair re-serialise to a SEC text that sec() parses to the same key, PROVIDED the
+   square-root oracle is exact (sqrt_exact: a premise about numbers, true of pow(a, (p+1)/4, p) for the prime
+   p = 3 mod 4; primality of p is not proved here, so it stays a visible premise) *)
+Theorem C18_reserialize_public_pair : forall modsqrt, sqrt_exact modsqrt ->
+  forall int10 int16 mulG net s o,
+  public_pair int10 int16 mulG modsqrt net s = Ret (Some o) ->
+  exists t, public_key_text net o = Ret t /\ sec modsqrt net t = Ret (Some o).
+Proof. exact public_pair_reserialize. Qed.
+Print Assumptions C18_reserialize_public_pair.
+
+(* ---- electrum wallets: as_text() = "E:" + hex parses back through the entry point that produced the wallet ---- *)
+Theorem C18_reserialize_electrum : forall stretch mulG net s o,
+  (electrum_seed stretch mulG net s = Ret (Some o) ->
+     exists t, electrum_text o = Ret t /\ electrum_seed stretch mulG net t = Ret (Some o)) /\
+  (electrum_prv mulG net s = Ret (Some o) ->
+     exists t, electrum_text o = Ret t /\ electrum_prv mulG net t = Ret (Some o)) /\
+  (electrum_pub net s = Ret (Some o) ->
+     exists t, electrum_text o = Ret t /\ electrum_pub net t = Ret (Some o)).
+Proof. exact electrum_reserialize. Qed.
+Print Assumptions C18_reserialize_electrum.
+
+(* electrum_pub refuses the x = p + 1 alias it used to accept *)
+Example C18_electrum_unreduced_refused : electrum_pub btc_cfg w_electrum_text = Ret None.
+Proof. exact w_electrum_refused. Qed.
 
 (* ============================================================================================== *)
 (* 4. kinds are kept apart                                                                        *)
@@ -366,9 +384,3 @@ Theorem C18_hd_privacy_is_marker : forall mulG modsqrt pre kind d o,
   hd_of_payload mulG modsqrt pre kind d = Ret (Some o) -> obj_is_private o = bytes_eqb (slice 45 46 d) [x00].
 Proof. exact hd_privacy_is_marker. Qed.
 Print Assumptions C18_hd_privacy_is_marker.
-
-(* ---- bip32_seed: `pair[0] in "HP"` is a substring test: ":" and "HP:abc" are taken as passphrase seeds ---- *)
-Theorem C18_seed_prefix_substring :
-  seed_secret [58%N] = Ret (Some []) /\ seed_secret (text_of_string "HP:abc") = Ret (Some [x61; x62; x63]).
-Proof. exact w_seed_empty_prefix. Qed.
-Print Assumptions C18_seed_prefix_substring.
